@@ -204,11 +204,22 @@ pub fn run_history_opts<K: Kit>(kit: &K, h: &History, keep_events: bool, budget:
                 if h.params.kind != PKind::Prm {
                     continue;
                 }
+                // "drop-old-definitions": the user does not keep earlier problem definitions
+                // alive - every replacement is a freshly allocated object and the previous ones
+                // are freed (so a new definition may well live at the address of a dead one)
+                let drop_old = h.problems[0].tags.iter().any(|t| t == "drop-old-definitions");
+                if drop_old {
+                    for o in objects.iter_mut() {
+                        *o = None;
+                    }
+                }
                 let inst = match &objects[*i] {
                     Some(prev) => prev.clone(),
                     None => fresh(&d, &objects, *i)?,
                 };
-                objects[*i] = Some(inst.clone());
+                if !drop_old {
+                    objects[*i] = Some(inst.clone());
+                }
                 let r = d.set_problem_definition(inst);
                 pd = Some(*i);
                 r
